@@ -223,10 +223,10 @@ pub fn discover_tys(
         OwnedDataModelType::U64 => {}
         OwnedDataModelType::U128 => {}
 
-        // TODO: usize and isize don't impl Schema, which, fair.
-        OwnedDataModelType::Usize => unreachable!(),
-        OwnedDataModelType::Isize => unreachable!(),
-        //
+        // usize and isize don't impl Schema, but they can arrive in a schema
+        // received from a peer: they are leaves like the other integers.
+        OwnedDataModelType::Usize => {}
+        OwnedDataModelType::Isize => {}
         OwnedDataModelType::F32 => {}
         OwnedDataModelType::F64 => {}
         OwnedDataModelType::Char => {}
@@ -256,6 +256,6 @@ pub fn discover_tys(
                 discover_tys_data(&variant.data, set);
             }
         }
-        OwnedDataModelType::Schema => todo!(),
+        OwnedDataModelType::Schema => {}
     };
 }
